@@ -40,10 +40,14 @@ def qual(spec, t, frompkg=''):
 # ---------------------------------------------------------------------------------------------------------------------
 # abstract semantics (Python twin of WireSem.tla; used for sanity and for the kessoku-side expectation)
 
-def abstract(spec):
-    """-> record for WireSem.tla: providers with uniform fields"""
+def abstract(spec, which=1):
+    """-> record for WireSem.tla: providers with uniform fields (which=2: the second injector, built from a subset of the elements)"""
     provs = []
     fnames = {f['name']: f for f in spec['funcs']}
+    all_elems = spec['elems']
+    if which == 2:
+        spec = dict(spec)
+        spec['elems'] = [all_elems[i] for i in spec['injector2']['elems']]
     for e in spec['elems']:
         k = e['kind']
         if k == 'func':
@@ -75,13 +79,13 @@ def abstract(spec):
                 if fn_ in e['fields']:
                     provs.append({'id': 'fld:%s.%s' % (s, fn_), 'kind': 'field', 'requires': [s], 'provides': [[ft]], 'fallible': False,
                                   'stype': s, 'fields': [fn_], 'allfields': [], 'alltypes': []})
-    inj = spec['injector']
+    inj = spec['injector'] if which == 1 else spec['injector2']
     forms = {}
     for t, ty in spec['types'].items():
         forms[t] = ty['form']
         if ty['form'] == 'bstruct':
             forms['*' + t] = 'ptr'
-    return {'id': spec['id'], 'ret': inj['ret'], 'args': list(inj['args']), 'haserr': inj['haserr'], 'forms': forms, 'providers': provs}
+    return {'id': spec['id'] + ('' if which == 1 else '#2'), 'ret': inj['ret'], 'args': list(inj['args']), 'haserr': inj['haserr'], 'forms': forms, 'providers': provs}
 
 
 # ---------------------------------------------------------------------------------------------------------------------
@@ -290,14 +294,24 @@ def write_pkg(spec, root):
         sig = 'func %s(%s) (%s, error) {\n\twire.Build(\n\t\t%s,\n\t)\n\treturn %s, nil\n}\n' % (inj['name'], params, rt, ',\n\t\t'.join(items), zero)
     else:
         sig = 'func %s(%s) %s {\n\twire.Build(\n\t\t%s,\n\t)\n\treturn %s\n}\n' % (inj['name'], params, rt, ',\n\t\t'.join(items), zero)
+    if spec.get('injector2'):
+        i2 = spec['injector2']
+        params2 = ', '.join('p%d %s' % (i, use_form(spec, a)) for i, a in enumerate(i2['args']))
+        rt2 = use_form(spec, i2['ret'])
+        zero2 = 'nil' if rt2.startswith('*') or spec['types'].get(i2['ret'].lstrip('*'), {}).get('form') == 'iface' else rt2 + '{}'
+        items2 = [elem_expr(spec, spec['elems'][k]) for k in i2['elems']]
+        if i2['haserr']:
+            sig += '\nfunc %s(%s) (%s, error) {\n\twire.Build(\n\t\t%s,\n\t)\n\treturn %s, nil\n}\n' % (i2['name'], params2, rt2, ',\n\t\t'.join(items2), zero2)
+        else:
+            sig += '\nfunc %s(%s) %s {\n\twire.Build(\n\t\t%s,\n\t)\n\treturn %s\n}\n' % (i2['name'], params2, rt2, ',\n\t\t'.join(items2), zero2)
     im = ['\t"github.com/google/wire"'] + needs_imports(spec, sig)
     open(os.path.join(d, 'wire.go'), 'w').write('//go:build wireinject\n\npackage main\n\nimport (\n%s\n)\n\n%s' % ('\n'.join(im), sig))
     json.dump(spec, open(os.path.join(d, 'spec.json'), 'w'))
 
 
-def main_go(spec, params):
+def main_go(spec, params, injname=None):
     """driver calling the injector with symbolic arguments; params = the generated function's parameter types (Go exprs)"""
-    inj = spec['injector']
+    injname = injname or spec['injector']['name']
     args = []
     for p in params:
         if p == 'context.Context':
@@ -325,7 +339,7 @@ def main_go(spec, params):
                 args.append('func() %s { v := %s; return &v }()' % (p, mk))
             else:
                 args.append('*' + mk)
-    call = '%s(%s)' % (inj['name'], ', '.join(args))
+    call = '%s(%s)' % (injname, ', '.join(args))
     return call
 
 
@@ -377,14 +391,18 @@ func main() {
 '''
 
 
-def write_main(spec, d, params, haserr, pkgid=None):
-    call = main_go(spec, params)
-    if call is None:
-        return False
-    if haserr:
-        stmt = 'r, err := %s' % call
-    else:
-        stmt = 'r := %s\n\tvar err error' % call
+def write_main(spec, d, injs, pkgid=None):
+    """injs: [(injector name, parameter type expressions, has error result)]; the driver runs the one named by $INJ"""
+    cases = []
+    for name, params, haserr in injs:
+        call = main_go(spec, params, name)
+        if call is None:
+            return False
+        if haserr:
+            cases.append('\tcase %s:\n\t\tv, e := %s\n\t\tr, err = v, e\n' % (json.dumps(name), call))
+        else:
+            cases.append('\tcase %s:\n\t\tr = %s\n' % (json.dumps(name), call))
+    stmt = 'var r any\n\tvar err error\n\tswitch os.Getenv("INJ") {\n%s\t}' % ''.join(cases)
     src = MAIN_TMPL % {'id': pkgid or spec['id'], 'callstmt': stmt}
     src = src.replace('''	calls := rtw.Calls
 	if calls == nil {
@@ -572,6 +590,53 @@ def random_spec(rng, sid, nmin=3, nmax=6, external=False, decoy=False, struct_va
     haserr = any(f['fallible'] for f in funcs if not f.get('decoy'))
     spec = {'id': sid, 'types': types, 'funcs': funcs, 'elems': elems, 'alias': alias,
             'injector': {'name': 'Init' + sid.capitalize(), 'args': list(args), 'ret': t, 'haserr': haserr}}
+    # a second injector in the same wire.go, requesting an intermediate type, built from exactly the elements it needs
+    if rng.random() < 0.5:
+        ab = abstract(spec)
+        sup = {}
+        for p in ab['providers']:
+            for g in p['provides']:
+                for t_ in g:
+                    sup[t_] = p
+        cands = [f['provides'] for f in funcs if f['name'] != 'NewApp' and not f.get('decoy') and types[f['provides']]['form'] in ('ptr', 'val')]
+        if cands:
+            t2 = rng.choice(cands)
+            need, todo, args2 = [], [t2], []
+            while todo:
+                x = todo.pop()
+                if x not in sup:
+                    if x not in args2:
+                        args2.append(x)
+                    continue
+                p = sup[x]
+                if p['id'] in [q['id'] for q in need]:
+                    continue
+                need.append(p)
+                todo += p['requires']
+            ids = {p['id'] for p in need}
+            idx = []
+            for i_, e in enumerate(elems):
+                k_ = e['kind']
+                if (k_ == 'func' and e['name'] in ids) or (k_ == 'value' and 'val:' + e['type'] in ids) or (k_ == 'ifacevalue' and 'ival:' + e['iface'] in ids) \
+                        or (k_ == 'struct' and 'struct:' + e['type'] in ids) \
+                        or (k_ == 'fieldsof' and any(('fld:%s.%s' % (e['type'], f_)) in ids for f_ in e['fields'])) \
+                        or (k_ == 'bind' and any(e['iface'] in g for p in need for g in p['provides'])):
+                    idx.append(i_)
+            # wire rejects unused providers: a FieldsOf element listing a field nobody needs, or a Bind nobody needs, would be one
+            okk = True
+            for i_ in idx:
+                e = elems[i_]
+                if e['kind'] == 'fieldsof' and not all(('fld:%s.%s' % (e['type'], f_)) in ids for f_ in e['fields']):
+                    okk = False
+                if e['kind'] == 'bind':
+                    used_iface = any(e['iface'] in p['requires'] for p in need) or t2 == e['iface']
+                    if not used_iface:
+                        okk = False
+                if e['kind'] == 'struct':
+                    okk = okk and True
+            if okk and len(idx) >= 2:
+                spec['injector2'] = {'name': 'Sub' + sid.capitalize(), 'args': args2, 'ret': t2, 'elems': idx,
+                                     'haserr': any(p['fallible'] for p in need)}
     units = []
     used = set()
     for i, e in enumerate(elems):
